@@ -109,7 +109,7 @@ Section WithLgk.
     pose proof (lg_aux_ge lgk lgk_lo lgk_hi) as Hlg.
     constructor; unfold aux_new; cbn [a_lg a_cnt a_ent]; try rewrite nonzero_zeros; try (simpl; lia).
     - apply tinv_zeros.
-    - assert (0 < 2 ^ lg_aux_arr_ints lgk) by (apply N.neq_0_lt_0, N.pow_nonzero; discriminate). cbn [lenN length]. lia.
+    - reflexivity.
     - constructor.
     - constructor.
   Qed.
@@ -134,14 +134,11 @@ Section WithLgk.
     intros [Hi Hf] Hs. apply Hf in Hs. destruct Hs as (Hsk & Hv1 & Hv2 & Hin). cbn [aents] in Hin.
     apply nonzero_In in Hin. destruct Hin as [Hin Hnz].
     destruct (In_getN _ _ Hin) as (i & Hil & Hg).
-    pose proof (ai_tinv _ _ Hi) as Ht. destruct Ht as (Hl & _) eqn:Et. clear Et.
+    pose proof (ai_tinv _ _ Hi) as Ht. pose proof Ht as (Hl & _).
     exists i. split; [lia|]. split; [exact Hg|].
     apply (find_found (a_lg a) (akey lgk) (aiskey lgk) (aiskey_spec lgk) (ahome (a_lg a)) (aux_stride (a_lg a))
-             (aux_stride_odd (a_lg a)) (ahome_lt (a_lg a))); auto.
-    - apply (ai_tinv _ _ Hi).
-    - lia.
-    - now rewrite Hg.
-    - rewrite Hg. apply pair_sv_key; lia.
+             (aux_stride_odd (a_lg a)) (ahome_lt (a_lg a)));
+      [exact Ht|lia|now rewrite Hg|rewrite Hg; apply pair_sv_key; lia].
   Qed.
 
   Lemma must_find_ok a f s v : arep lgk (Some a) f -> f s = Some v -> aux_must_find a lgk s = Some v.
@@ -165,7 +162,7 @@ Section WithLgk.
                arep lgk (Some a') (fun t => if t =? s then Some v' else f t).
   Proof.
     intros Hr Hs Hv1 Hv2. destruct (rep_lookup a f s v Hr Hs) as (i & Hi & Hg & Hf).
-    destruct Hr as [Hinv Hrep]. pose proof (proj1 (Hrep s v) Hs) as (Hsk & _ & _ & _).
+    destruct Hr as [Hinv Hrep]. pose proof (proj1 (Hrep s v) Hs) as (Hsk & Hvo1 & Hvo2 & _).
     unfold aux_must_replace, aux_find. rewrite aux_find_in_eq, Hf. eexists. split; [reflexivity|].
     pose proof (ai_tinv _ _ Hinv) as Ht. pose proof Ht as (Hl & _).
     assert (Hnz' : pair_sv s v' <> 0) by (apply pair_sv_nz; lia).
@@ -243,7 +240,7 @@ Section WithLgk.
     assert (Hr' : arep lgk (Some (aux_or_new ax lgk)) f).
     { destruct ax as [a|]; [exact Hr|]. cbn [aux_or_new].
       apply arep_ext with (f := fun _ => None); [apply arep_new|].
-      intros t. destruct (f t) as [w|] eqn:E; auto. apply (proj2 Hr) in E. cbn [aents] in E. tauto. }
+      intros t. destruct (f t) as [w|] eqn:E; auto. apply (proj2 Hr) in E. cbn [aents] in E. destruct E as (_ & _ & _ & []). }
     clear Hr. set (a := aux_or_new ax lgk) in *. destruct Hr' as [Hinv Hrep].
     pose proof (absent_of_none a f s (conj Hinv Hrep) Hn Hs) as Habs.
     pose proof (ai_tinv _ _ Hinv) as Ht. pose proof Ht as (Hl & _).
@@ -265,17 +262,19 @@ Section WithLgk.
     assert (Hin' : forall x, In x (nonzero ent') <-> x = pair_sv s v \/ In x (nonzero (a_ent a))).
     { intros x. rewrite E1, E2, !in_app_iff. cbn [In]. intuition. }
     assert (Hnd' : NoDup (map (akey lgk) (nonzero ent'))).
-    { rewrite E2, map_app. cbn [map]. apply NoDup_Add with (a := akey lgk (pair_sv s v)) (l := map (akey lgk) (l1 ++ l2)).
-      - rewrite map_app. apply Add_app.
-      - rewrite <- E1. apply (ai_nodup _ _ Hinv).
-      - rewrite <- E1, Hkey. intros C. apply in_map_iff in C. destruct C as (x & Hx & Hin). now apply (Habs x Hin). }
+    { rewrite E2, map_app. cbn [map].
+      apply (proj2 (NoDup_Add (Add_app (akey lgk (pair_sv s v)) (map (akey lgk) l1) (map (akey lgk) l2)))).
+      rewrite <- map_app, <- E1. split; [apply (ai_nodup _ _ Hinv)|].
+      rewrite Hkey. intros C. apply in_map_iff in C. destruct C as (x & Hx & Hin). now apply (Habs x Hin). }
     assert (Hwf' : Forall (wf_entry lgk) (nonzero ent')).
     { apply Forall_forall. intros x Hx. apply Hin' in Hx. destruct Hx as [->|Hx].
       - exists s, v. auto.
       - pose proof (ai_wf _ _ Hinv) as Hw. rewrite Forall_forall in Hw. now apply Hw. }
     assert (Hlen' : lenN (nonzero ent') = a_cnt a + 1).
     { rewrite Hc, E1, E2. unfold lenN. rewrite !app_length. cbn [length]. lia. }
-    unfold aux_must_add, aux_find. rewrite aux_find_in_eq. fold a. rewrite Hf. fold ent'.
+    unfold aux_must_add.
+    change (aux_find a lgk s) with (find (a_lg a) (aiskey lgk) (ahome (a_lg a)) (aux_stride (a_lg a)) s (a_ent a)).
+    rewrite Hf. fold ent'.
     destruct (N.ltb_spec (3 * 2 ^ a_lg a) (4 * (a_cnt a + 1))) as [Hgrow|Hstay].
     - (* grow: re-hash into a table of twice the size *)
       destruct (rehash_ok (a_lg a + 1) (akey lgk) (aiskey lgk) (aiskey_spec lgk) (ahome (a_lg a + 1)) (aux_stride (a_lg a + 1))
